@@ -49,6 +49,7 @@ def run(ctx):
     x10(ctx, R)
     x11(ctx, R)
     x12(ctx, R)
+    x13(ctx, R)
     l7(ctx, R)
 
 
@@ -792,14 +793,16 @@ def t4(ctx, R, rule="T4"):
         if concrete:
             continue
         is_cmd_sub = c is not None and ctx.program.is_subclass(c, "Command")
-        rejected = (not is_cmd_sub and guards["is-command-subclass"]) or (is_cmd_sub and guards["has-args-definition"])
+        # hasattr(args_definition) only rejects the intermediate classes while the base class does not give the attribute a value
+        base_defines = nm in table and table[nm].get("inherits_base_definition")
+        rejected = (not is_cmd_sub and guards["is-command-subclass"]) or (is_cmd_sub and guards["has-args-definition"] and not base_defines)
         if not rejected:
             bad.append(nm)
     if bad:
         for nm in bad:
             ctx.violation(rule, lk, "registry-name:%s" % nm, "the identifier `%s` resolves to %s, which is not a concrete command, and the "
                           "lookup does not reject it" % (nm.replace("Command", "").lower(), nm), node=lk.node,
-                          witness="`%s;` makes parse() raise AttributeError" % nm.replace("Command", "").lower())
+                          witness="`%s;` is accepted as a command, or makes parse() raise AttributeError" % nm.replace("Command", "").lower())
     else:
         ctx.holds(rule, "%d names producible by the scheme: all concrete commands or rejected (%s)" % (
             len(cands), ", ".join(k for k, v in guards.items() if v)))
@@ -898,6 +901,67 @@ def x10(ctx, R):
                 else:
                     ctx.violation("X10", g, "slot-value:%s" % norm(v), "the state slot is assigned %s, not None or a (ttype, tvalue) state function"
                                   % norm(v), node=a)
+
+
+# ------------------------------------------------------------------------------- X13
+def x13(ctx, R):
+    """str(e) runs inside the handler: whatever __str__ raises escapes parse().  The stored attributes come from constructor arguments whose
+    type differs from raise site to raise site (a string, a list, a Command), so only operations total on every object are accepted."""
+    import re as _re
+    ctx.rule("X13", "exception messages are built with total operations only (they are formatted below the funnel)")
+    tr, caught = funnel(ctx, R, "X13")
+    if not any(isinstance(c, ast.Call) and call_name(c) in ("str", "repr", "format") or isinstance(c, (ast.JoinedStr, ast.BinOp))
+               for h in tr.handlers for c in walk_no_nested(h)):
+        ctx.notice("X13", "the handler does not format the exception")
+        return
+    n = 0
+    for c in ctx.program.all_classes():
+        if c.module.name not in ("parser", "commands") or not any(is_caught(ctx, x.name, caught) for x in ctx.program.mro(c)):
+            continue
+        f = ctx.program.method(c, "__str__")
+        if f is None or f.cls is None or f.cls.module.name not in ("parser", "commands"):
+            continue
+        if f.cls is not c and "__str__" not in c.methods:
+            continue
+        n += 1
+        sn = f.params[0]
+        bad = []
+
+        def is_attr(e):
+            return isinstance(e, ast.Attribute) and isinstance(e.value, ast.Name) and e.value.id == sn
+
+        def total(e):
+            if isinstance(e, ast.Constant) or is_attr(e):
+                return True
+            if isinstance(e, ast.Tuple):
+                return all(total(x) for x in e.elts)
+            if isinstance(e, ast.BinOp) and isinstance(e.op, ast.Mod) and isinstance(e.left, ast.Constant) and isinstance(e.left.value, str):
+                specs = _re.findall(r"%(?!%)[-#0 +]*\d*(?:\.\d+)?(.)", e.left.value.replace("%%", ""))
+                return all(x in "sr" for x in specs) and total(e.right)
+            if isinstance(e, ast.JoinedStr):
+                return all(isinstance(v, ast.Constant) or (isinstance(v, ast.FormattedValue) and v.format_spec is None and total(v.value))
+                           for v in e.values)
+            if isinstance(e, ast.Call):
+                if isinstance(e.func, ast.Name) and e.func.id in ("str", "repr") and len(e.args) == 1:
+                    return total(e.args[0])
+                if isinstance(e.func, ast.Attribute) and e.func.attr == "format" and isinstance(e.func.value, ast.Constant) \
+                        and isinstance(e.func.value.value, str) and not _re.search(r"\{[^}]*[:!.\[]", e.func.value.value):
+                    return all(total(a) for a in e.args) and all(total(k.value) for k in e.keywords)
+            return False
+        for st in f.node.body:
+            if isinstance(st, ast.Expr) and isinstance(st.value, ast.Constant):
+                continue
+            if isinstance(st, ast.Return) and st.value is not None and total(st.value):
+                continue
+            bad.append(st)
+        if not bad:
+            ctx.holds("X13", "%s: built from stored attributes with %%s / str.format / f-string only" % f.qualname)
+        else:
+            ctx.violation("X13", f, "partial-message-op", "%s builds its message with an operation that can raise on some stored value (%s): it runs "
+                          "inside parse()'s handler, so the exception escapes parse()" % (f.qualname, norm(bad[0])[:80]), node=bad[0],
+                          witness="a raise site that stores a list or a Command in the attribute makes parse() raise AttributeError/TypeError")
+    ctx.need("X13", "caught exception classes with their own message", n, 4)
+
 
 
 # ------------------------------------------------------------------------------- X11
